@@ -16,7 +16,7 @@ import (
 	"verif/harness/lib/srv"
 )
 
-const ruleText = "rapid state machine per shard (own name space /tN, own live H.264+AAC streams carrying a per-path marker, own users) against one in-process server with auth enabled: histories of 6..15 steps over {save user (create/update, +-password, +-admin, pull/push from 10 patterns, through POST /api/v1/users or auth.Save), delete user, login (right/wrong password), refresh (good / superseded / access token as refresh)} interleaved with access attempts (credential: good | good with a client-supplied identity header naming the administrator | none | empty | refresh-as-access | superseded | garbage | spoofed internal header; RTSP: good | none | wrong password | the password an update replaced | stale nonce | Basic | unknown user) x path x entry point {RTSP/TCP play, publish (fresh path or replacing a live stream), path switch, user switch; ws-rtsp play, URL switch, publish, announce-then-play, upgrade URL with a .ts/.flv/.m3u8 suffix; WSP control+data (own / own with a suffixed upgrade URL / foreign / other-path channel); HTTP-FLV; ws-flv; HLS playlist; HLS segment; the HTTP-side play entries again with a non-canonical spelling of the path written to the socket as is (detour directory + dot-dot segments, single-dot and empty segments, dots and slashes literal or percent-encoded, upper case, trailing blank; GET/POST/OPTIONS, CONNECT for what the mux would redirect), aimed at users whose right covers the detour directory only; 16 management API calls}. Oracle = reference monitor from the rights saved last (refmodel.Permits); observed = marked media bytes / registry identity / API effect. Both directions asserted. Non-trivial = attempt on a (user, action, path) whose reference decision an earlier update or delete of this history changed, or a mid-session switch, or an administrator's delete / delete+re-create / in-place narrowing of the user BETWEEN two requests of one RTSP-TCP, ws-rtsp or WSP connection, or a publish attempt through a WebSocket session; fingerprint = entry, shape, credential, paths, rights of the users involved, expected decision."
+const ruleText = "rapid state machine per shard (own name space /tN, own live H.264+AAC streams carrying a per-path marker, own users) against one in-process server with auth enabled: histories of 6..15 steps over {save user (name spelled in varied case; create/update, +-password, +-admin, pull/push from 10 patterns, through POST /api/v1/users or auth.Save), delete user (name spelled in varied case), login (varied case; right/wrong password), refresh (good / superseded / access token as refresh)} interleaved with access attempts (credential: good | good with a client-supplied identity header naming the administrator | none | empty | refresh-as-access | superseded | garbage | spoofed internal header; RTSP: good | none | wrong password | the password an update replaced | stale nonce | Basic | unknown user) x path x entry point {RTSP/TCP play, publish (fresh path or replacing a live stream), path switch, user switch; ws-rtsp play, URL switch, publish, announce-then-play, upgrade URL with a .ts/.flv/.m3u8 suffix; WSP control+data (own / own with a suffixed upgrade URL / foreign / other-path channel); HTTP-FLV; ws-flv; HLS playlist; HLS segment; the HTTP-side play entries again with a non-canonical spelling of the path written to the socket as is (detour directory + dot-dot segments, single-dot and empty segments, dots and slashes literal or percent-encoded, upper case, trailing blank; GET/POST/OPTIONS, CONNECT for what the mux would redirect), aimed at users whose right covers the detour directory only; 16 management API calls}. Oracle = reference monitor from the rights saved last (refmodel.Permits); observed = marked media bytes / registry identity / API effect. Both directions asserted. Non-trivial = attempt on a (user, action, path) whose reference decision an earlier update or delete of this history changed, or a mid-session switch, or an administrator's delete / delete+re-create / in-place narrowing of the user BETWEEN two requests of one RTSP-TCP, ws-rtsp or WSP connection, or a publish attempt through a WebSocket session; fingerprint = entry, shape, credential, paths, rights of the users involved, expected decision."
 
 type hist struct {
 	t     *rapid.T
@@ -65,9 +65,31 @@ func (h *hist) stepSave(u int) {
 
 // applySave performs one administrator's save of user u (through the API or the
 // user table) and installs it in the model.
+// spelledName draws how an administrative step (or a login) spells user u's
+// name: account names are case-insensitive (docs/config.md; User.init stores the
+// lower-case form), so "t11u0", "T11U0", "T11u0" and "t11U0" are one account.
+func (h *hist) spelledName(u int, label string) string {
+	n := h.names[u]
+	switch rapid.IntRange(0, 5).Draw(h.t, label+"NameCase") {
+	case 0:
+		evid.Class("name-spelling:upper")
+		return strings.ToUpper(n)
+	case 1:
+		evid.Class("name-spelling:capitalised")
+		return strings.ToUpper(n[:1]) + n[1:]
+	case 2:
+		evid.Class("name-spelling:mixed")
+		i := strings.LastIndex(n, "u")
+		return n[:i] + "U" + n[i+1:]
+	}
+	evid.Class("name-spelling:lower")
+	return n
+}
+
 func (h *hist) applySave(u int, nu mUser, withPass bool, via string) {
-	h.note(map[string]any{"op": "save", "user": h.names[u], "pull": nu.Pull, "push": nu.Push, "admin": nu.Admin, "with_password": withPass, "via": via})
-	rec := &auth.User{Name: h.names[u], Admin: nu.Admin, PullAccess: nu.Pull, PushAccess: nu.Push}
+	name := h.spelledName(u, "save")
+	h.note(map[string]any{"op": "save", "user": name, "pull": nu.Pull, "push": nu.Push, "admin": nu.Admin, "with_password": withPass, "via": via})
+	rec := &auth.User{Name: name, Admin: nu.Admin, PullAccess: nu.Pull, PushAccess: nu.Push}
 	if withPass {
 		rec.Password = nu.Pass
 	}
@@ -94,13 +116,14 @@ func (h *hist) stepDelete(u int) {
 }
 
 func (h *hist) applyDelete(u int, via string) {
-	h.note(map[string]any{"op": "delete", "user": h.names[u], "via": via})
+	name := h.spelledName(u, "delete")
+	h.note(map[string]any{"op": "delete", "user": name, "via": via})
 	if via == "api" {
-		if st, body := h.sh.api("DELETE", "/api/v1/users/"+h.names[u], h.root, nil); st != 200 {
-			h.fail("admin-refused", "the administrator's DELETE of user %s answered %d %s", h.names[u], st, head(body, 120))
+		if st, body := h.sh.api("DELETE", "/api/v1/users/"+name, h.root, nil); st != 200 {
+			h.fail("admin-refused", "the administrator's DELETE of user %s answered %d %s", name, st, head(body, 120))
 		}
 	} else {
-		auth.Del(h.names[u])
+		auth.Del(name)
 	}
 	h.m.install(u, mUser{})
 	evid.Class("admin:delete")
@@ -118,8 +141,9 @@ func (h *hist) stepLogin(u int) {
 			pass += "-wrong"
 		}
 	}
-	h.note(map[string]any{"op": "login", "user": h.names[u], "wrong_password": wrong})
-	st, tp := h.sh.login(h.names[u], pass)
+	name := h.spelledName(u, "login")
+	h.note(map[string]any{"op": "login", "user": name, "wrong_password": wrong})
+	st, tp := h.sh.login(name, pass)
 	want := x.Exists && !wrong
 	evid.Eval(1)
 	switch {
@@ -1035,6 +1059,7 @@ func (h *hist) run() {
 		auth.Del(h.names[i])
 	}
 	h.root = httpCred{Token: sh.rootToken(h.t), HasToken: true}
+	sh.recycle(h.t)
 	n := rapid.IntRange(6, 15).Draw(h.t, "steps")
 	// the first steps create accounts, otherwise most of a short history would
 	// talk about users that never existed
